@@ -14,7 +14,7 @@ RULE = ('schemas (3 nesting levels, every default kind) x scenarios {poisoned, u
         'poisoning or interleaves >= 4 operations; distinct by scenario text')
 F = CFGF
 
-N3 = [Opt('str', b'z', 0, b'deep-default'), Opt('strl', b'zl', 0, b'{d1, "d 2"}')]
+N3 = [Opt('str', b'z', 0, b'deep-default'), Opt('strl', b'zl', 0, b'{d1, "d 2"}'), Opt('int', b'q', 0, 3)]
 N2 = [Opt('int', b'a', 0, 11), Opt('str', b's', 0, b'sub-default'), Opt('intl', b'l', 0, b'{5, 6}'),
       Opt('sec', b'n', F['MULTI'] | F['TITLE'], None, N3), Opt('flt', b'f', 0, 2.5), Opt('bool', b'b', 0, 1)]
 SCHEMA = [Opt('int', b'i', 0, 7), Opt('str', b's', 0, b'top-default'), Opt('strl', b'sl', 0, b'{x, "y z"}'),
@@ -61,9 +61,18 @@ def generate(rng, tier):
         yield Scn('solo-b%d' % n, head + ctx(b, 1) + ['dump 1', 'print 1 0'], {'class': 'two-contexts', 'group': 'i%d' % n, 'role': 'b', 'big': False})
     # two sibling instances of one multi section
     sib = [('setint 0 %s %d 0', b'a', 5), ('addlist 0 %s int %d', b'l', 8), ('setstr 0 %s %s 0', b's', None), ('addtsec 0 %s %s', b'n', None),
-           ('setcomment 0 %s %s', b'a', None)]
-    for k in range(20 if tier == 'quick' else 300):
-        seq = [(r.below(2), r.pick(sib)) for _ in range(4 + r.below(5))]
+           ('setcomment 0 %s %s', b'a', None),
+           # callbacks installed through one instance (directly, and through the template of its nested multi section),
+           # then values that a leaked callback would rewrite (script 1 stores |v|)
+           ('validate2 0 @a 1 %s', b'', ''), ('setint 0 %s %d 0', b'a', -6), ('validate2 0 @n|q 1 %s', b'', ''), ('addtsec 0 %s %s', b'n', hx(b'tq')),
+           ('setint 0 %s %d 0', b'n=tq|q', -4), ('printfunc 0 @a 0 %s', b'', '')]
+    V2A, SETA, V2Q, ADDQ, SETQ = sib[5], sib[6], sib[7], sib[8], sib[9]
+    directed = []
+    for A, B in ((0, 1), (1, 0)):
+        directed += [[(A, V2A), (B, SETA), (A, SETA)], [(A, V2Q), (B, ADDQ), (B, SETQ), (A, ADDQ), (A, SETQ)],
+                     [(B, ADDQ), (A, V2Q), (B, SETQ), (A, ADDQ), (A, SETQ), (B, SETQ)]]
+    for k in range(len(directed) + (20 if tier == 'quick' else 300)):
+        seq = directed[k] if k < len(directed) else [(r.below(2), r.pick(sib)) for _ in range(4 + r.below(5))]
 
         def render(which):
             out = []
@@ -71,7 +80,10 @@ def generate(rng, tier):
                 if which is not None and inst != which:
                     continue
                 path = b'm=%d|' % inst + name
-                out.append(fmt % (hx(path), v if v is not None else hx(b'v%d' % inst)))
+                if '@' in fmt:      # a callback installed through the section instance: NAMEPATH K SECPATH
+                    out.append(re.sub(r'@(\S+)', lambda m: hx(m.group(1).encode()), fmt) % hx(b'm=%d' % inst))
+                else:
+                    out.append(fmt % (hx(path), v if v is not None else hx(b'v%d' % inst)))
             return out
         head = gen.prelude(SCHEMA, 0) + ['poison 0', 'parse_buf 0 ' + hx(b'm { }\nm { }\n')]
         n += 1
